@@ -47,3 +47,11 @@ package types
 //@ assume types.(*Span).GetDataSize
 //@   modifies sp.Event.dataSize
 //@ contract types.(*Payload).IsEmpty inline
+
+// ---- C14: the fields extracted at ingestion are those of the sampler definition selected for the event's
+// destination: same selector (DetermineSamplerKey), same definition lookup (GetSamplingKeyFieldsForDestName).
+//@ contract types.NewCoreFieldsUnmarshaler props C14
+//@   let sel = opt.Config.DetermineSamplerKey(opt.APIKey, opt.Env, opt.Dataset)
+//@   ensures[fields-of-the-selected-definition] result.samplingKeyFields == result0of(config.GetKeyFields(opt.Config.GetSamplingKeyFieldsForDestName(sel)))
+//@   ensures[id-fields-as-configured] result.traceIdFieldNames == opt.Config.GetTraceIdFieldNames() && result.parentIdFieldNames == opt.Config.GetParentIdFieldNames()
+//@   modifies nothing
